@@ -75,7 +75,10 @@ def result_body(r, kind, req_node):
 def reply(r, kind, req_node, typ, rid=None):
     a = {"id": rid or req_node[1]["id"], "type": typ, "from": req_node[1].get("to", S)}
     if typ == "error":
-        return ("iq", a, [("error", {"code": r.choice(["401", "404", "500", "503"]), "text": r.choice(["not-authorized", "item-not-found", "internal-server-error"])}, [], None)], None)
+        ea = {"code": r.choice(["401", "404", "500", "503"]), "text": r.choice(["not-authorized", "item-not-found", "internal-server-error", "service-unavailable"])}
+        if r.random() < 0.3:
+            ea["backoff"] = str(r.choice([1, 60, 3600, r.randint(1, 100000)]))        # (the server may tell the client to hold off)
+        return ("iq", a, [("error", ea, [], None)], None)
     return ("iq", a, result_body(r, kind, req_node), None)
 
 
